@@ -117,9 +117,9 @@ LT_KEYS = ('accelerate_dec_a', 'accelerators', 'byte_fmt', 'fast_load', 'finish_
            'list_accelerators', 'pause', 'polarity', 'prefix', 'stop', 'timeout', 'tracefile', 'trace_line', 'word_fmt')
 
 
-def lt_config(stop, accelerators, dec_a=0, polarity=0):
+def lt_config(stop, accelerators, dec_a=0, polarity=0, first_edge=0):
     cfg = dict.fromkeys(LT_KEYS)
-    cfg.update(accelerate_dec_a=dec_a, accelerators=accelerators, fast_load=0, finish_tape=0, first_edge=0,
+    cfg.update(accelerate_dec_a=dec_a, accelerators=accelerators, fast_load=0, finish_tape=0, first_edge=first_edge,
                in_min_addr=0x8000, list_accelerators=0, pause=1, polarity=polarity, stop=stop, timeout=HORIZON_T)
     return cfg
 
@@ -182,10 +182,18 @@ def describe(ref, got):
 def loop_case(rig, row, stop, v, dist, ear_bit, pol, carry, kinds=('py', 'c')):
     """Run one loop-level case four ways.  Returns (list of (sim, accel, description), info)."""
     from skoolkit.loadsample import Accelerator
-    regs = loop_regs(row, v, ear_bit, carry)
+    regs = loop_regs(row, v, ear_bit, carry & 1)
     # T after the tape-starting IN A,($FE) is first_edge + 11 = 11: that is when the loop is entered
     d0 = dist + 11
     blocks = [pulse_block([d0, FAR, FAR, FAR])]
+    first_edge = 0
+    if carry & 2:
+        # interrupts enabled and the frame interrupt (IM 1, routine at 0x38 = RET) arrives about 300 T-states
+        # after the loop is entered: a loop that samples the tape with interrupts on must not be fast-forwarded
+        # past the interrupt
+        first_edge = 69888 - 300 - 11
+        regs[25] = first_edge
+        regs[26] = 1
     results = {}
     for kind in kinds:
         for accel in (0, 1):
@@ -193,7 +201,7 @@ def loop_case(rig, row, stop, v, dist, ear_bit, pol, carry, kinds=('py', 'c')):
                 accs = {Accelerator(*row)}
             else:
                 accs = set()
-            results[kind, accel] = (rig.run(kind, regs, blocks, lt_config(stop, accs, 0, pol)), accs)
+            results[kind, accel] = (rig.run(kind, regs, blocks, lt_config(stop, accs, 0, pol, first_edge)), accs)
     k0 = kinds[0]
     ref = results[k0, 0][0]
     bad = []
@@ -222,6 +230,10 @@ def loop_units(tier):
             for ear_bit, pol in phases:
                 for carry in (0, 1):
                     yield name, dist, ear_bit, pol, carry
+        # interrupts enabled (carry field 2/3 = IFF 1 with carry 0/1): edge before / after the frame interrupt
+        for dist in (2 * row[5], 500, 900):
+            for ear_bit, pol in phases[:2]:
+                yield name, dist, ear_bit, pol, 2
 
 
 # A defect in the C simulator can be a memory-safety error that kills the process.  Loop-level work
@@ -303,6 +315,7 @@ def _rig_for(name):
     if name not in _rigs:
         _rigs.clear()
         mem, stop = loop_image(ACCELERATORS[name])
+        mem[0x38] = 0xC9            # IM 1 interrupt routine: RET
         _rigs[name] = (Rig(mem), stop)
     return _rigs[name]
 
